@@ -77,7 +77,7 @@ def _c07_falsy(plan, violation, entry):
         if o["l"] in labels:
             for f in fields:
                 val = o["f"].get(f)
-                if val in (0, None) or (isinstance(val, list) and any(x in (0, None) for x in val)):
+                if val in (0, None) or val == [] or (isinstance(val, list) and any(x in (0, None) for x in val)):
                     return True
     return False
 
